@@ -25,9 +25,18 @@ pub struct Graph {
     /// edges[i] = libraries imported by library i, in order
     pub edges: Vec<Vec<usize>>,
     pub status: Vec<Status>,
+    /// render every dependency in an import declaration of its own
+    pub multi_decl: bool,
 }
 
 fn lib_text(g: &Graph, i: usize, name_override: Option<&str>) -> String {
+    if g.multi_decl {
+        // one import declaration per dependency (a library may have several import declarations)
+        let decls: String = g.edges[i].iter().map(|j| format!(" (import (g n{}))", j)).collect();
+        let name = name_override.map(|s| s.to_string()).unwrap_or(format!("(g n{})", i));
+        let body = if g.status[i] == Status::BodyFault { format!("(define v{} (no-such-procedure {}))", i, i) } else { format!("(define v{} {})", i, 100 + i) };
+        return format!("(define-library {}{} (export v{}) (begin {}))\n", name, decls, i, body);
+    }
     let imports: String = g.edges[i].iter().map(|j| format!(" (g n{})", j)).collect();
     let name = name_override.map(|s| s.to_string()).unwrap_or(format!("(g n{})", i));
     let body = if g.status[i] == Status::BodyFault { format!("(define v{} (no-such-procedure {}))", i, i) } else { format!("(define v{} {})", i, 100 + i) };
@@ -166,10 +175,15 @@ fn run_history(g: &Graph, dir: Option<&PathBuf>, history: &[usize]) -> Result<Ve
             let mut out = vec![];
             for r in &history {
                 let text = format!("(import (g n{}))", r);
+                // a generous budget for graphs of at most 4 libraries: unbounded import recursion trips it
+                ruschm::verif_hooks::arm(100_000, 64, 10_000);
                 let it = &mut s.it;
                 let o = guarded(|| it.eval(text.chars()));
+                let tripped = ruschm::verif_hooks::tripped();
+                ruschm::verif_hooks::disarm();
                 let cls = match o {
                     Err((site, msg)) => format!("PANIC {}", sut::panic_sig(&site, &msg)),
+                    _ if tripped != 0 => "RUNAWAY".to_string(),
                     Ok(Ok(_)) => "ok".to_string(),
                     Ok(Err(e)) => class_of(&sut::err_info(&e).tag),
                 };
@@ -205,7 +219,7 @@ pub fn histories(n: usize, max_len: usize) -> Vec<Vec<usize>> {
 
 fn describe(g: &Graph, files: bool) -> String {
     let parts: Vec<String> = (0..g.n).map(|i| format!("n{}[{:?}]->{:?}", i, g.status[i], g.edges[i])).collect();
-    format!("{} {}", if files { "files" } else { "registered" }, parts.join(" "))
+    format!("{}{} {}", if files { "files" } else { "registered" }, if g.multi_decl { " (one import declaration per dependency)" } else { "" }, parts.join(" "))
 }
 
 pub fn judge_graph(g: &Graph, files: bool, hist: &[Vec<usize>]) -> Vec<Report> {
@@ -229,6 +243,10 @@ pub fn judge_graph(g: &Graph, files: bool, hist: &[Vec<usize>]) -> Vec<Report> {
                 for (k, r) in h.iter().enumerate() {
                     let (cls, bound) = &obs[k];
                     let acc = acceptable(g, *r);
+                    if cls == "RUNAWAY" {
+                        rep.fail("import-does-not-terminate", format!("attempt {} (import n{}): the import recursion exceeded 64 levels on a graph of {} libraries", k, r, g.n));
+                        break;
+                    }
                     if cls.starts_with("PANIC") {
                         rep.fail(cls[6..].to_string(), format!("attempt {} (import n{}) panicked", k, r));
                         break;
@@ -292,11 +310,11 @@ pub fn graph_from_index(n: usize, statuses: &[Status], idx: u64) -> Graph {
         status.push(statuses[(rest % statuses.len() as u64) as usize]);
         rest /= statuses.len() as u64;
     }
-    Graph { n, edges, status }
+    Graph { n, edges, status, multi_decl: rest % 2 == 1 }
 }
 
 pub fn graph_count(n: usize, statuses: usize) -> u64 {
-    (1u64 << (n * n)) * (statuses as u64).pow(n as u32)
+    (1u64 << (n * n)) * (statuses as u64).pow(n as u32) * 2
 }
 
 /// location clause: libraries are found relative to the program's directory, not the working directory
